@@ -292,6 +292,11 @@ def pathological(tier):
         fams.append(("table-text-tr*%d" % d, "<table>" + "x<tr>" * d))
         fams.append(("script-escapes*%d" % d, "<script>" + "<!--<script>" * d))
     fams.append(("text*1e6", "x" * (300000 if tier == "quick" else 1000000)))
+    for nd in (4299, 4301, 5000, 20000):
+        fams.append(("numref-dec*%d" % nd, "x&#" + "9" * nd + ";y"))
+        fams.append(("numref-dec-zeros*%d" % nd, "x&#" + "0" * nd + "65;y"))
+        fams.append(("numref-hex*%d" % nd, "x&#x" + "F" * nd + ";y"))
+        fams.append(("numref-attr*%d" % nd, "<a b='&#" + "1" * nd + "' c=&#x" + "0" * nd + "41>"))
     fams.append(("longtag", "<" + "a" * 200000 + ">"))
     fams.append(("longattr", "<a b='" + "c" * 200000 + "'>"))
     fams.append(("longcomment", "<!--" + "-" * 200000))
